@@ -489,6 +489,7 @@ func (s *Sim) onCommit(wrote bool) {
 // production code on this goroutine is turned into a violation.
 func (s *Sim) Exec(i int, st *Step) (ran bool) {
 	s.stepNo = i
+	Beat()
 	defer func() {
 		if r := recover(); r != nil {
 			stack := string(debug.Stack())
@@ -1051,6 +1052,7 @@ func (s *Sim) pendingWork() bool {
 // autoRound runs one fault-free scheduling round: tick, then let every
 // subsystem work and deliver until nothing moves.
 func (s *Sim) autoRound(dt int64) {
+	Beat()
 	s.stepTick(dt)
 	for guard := 0; guard < 10000; guard++ {
 		moved := false
